@@ -558,7 +558,19 @@ def check(plan):
                 if op["i"] in inst:
                     probes["fork"] += 1
                     src = inst[op["i"]]
-                    inst[op["j"]] = {"proc": src["proc"], "a": copy.deepcopy(src["a"]), "ci": src["ci"],
+                    clone = None
+                    if op["id"] % 2:
+                        try:
+                            import pickle
+                            clone = pickle.loads(pickle.dumps(src["a"]))
+                            probes["fork_pickle"] = probes.get("fork_pickle", 0) + 1
+                        except Exception:
+                            clone = None
+                    try:
+                        repr(src["a"]), str(src["a"])
+                    except Exception:
+                        pass
+                    inst[op["j"]] = {"proc": src["proc"], "a": clone if clone is not None else copy.deepcopy(src["a"]), "ci": src["ci"],
                                      "observed": dict(src["observed"]), "origin": dict(src["origin"]),
                                      "had": dict(src["had"]), "nreq": src["nreq"]}
                     sig.append("F")
